@@ -165,6 +165,29 @@ def replay(ck, em, rec):
     st = g.acc_stats(X)
     if not same([float(st.log_likelihood)], [float(sum(lse(row) for row in exp_terms))]):
         return bad("StatsLogLikelihood", "acc_stats(X).log_likelihood %r, expected %r" % (float(st.log_likelihood), float(sum(exp_ll))))
+    # ---- the same machine widened: its features repeated T times (each component becomes a product of T
+    # independent copies, so every weighted log-density is log w + T * (term - log w)) and expressed in other
+    # units (x -> a x shifts every log-density by -D' log|a|, GmmDensity.AffineShift).  Many features with
+    # uniformly small / large variances is where a normaliser computed as log(prod(...)) leaves double range.
+    T = 32
+    C = len(rec["m"]["w"])
+    logw = [(Decimal(x[0]) / Decimal(x[1])).ln() for x in rec["m"]["w"]]
+    for a in (1e-3, 1.0, 1e3):
+        g2 = em.GMMMachine(C, weights=np.array([float(F(*x)) for x in rec["m"]["w"]]))
+        g2.variance_thresholds = float(F(*rec["m"]["floor"])) * a * a
+        g2.means = np.tile(np.asarray(g.means), (1, T)) * a
+        g2.variances = np.tile(np.asarray(g.variances), (1, T)) * a * a
+        Xw = np.tile(X, (1, T)) * a
+        shift = Decimal(D * T) * Decimal(abs(a)).ln()
+        exp_w = [[logw[c] + T * (row[c] - logw[c]) - shift for c in range(C)] for row in exp_terms]
+        exp_llw = np.array([float(lse(row)) for row in exp_w])
+        got = np.asarray(g2.log_likelihood(Xw))
+        if not same(got, exp_llw, 1e-9):
+            return bad("WideMachine", "%d features (the scenario's features repeated %d times), units x%g: log_likelihood %s, "
+                       "expected %s" % (D * T, T, a, got.tolist(), exp_llw.tolist()))
+        st2 = g2.acc_stats(Xw)
+        if not (np.all(np.isfinite(np.asarray(st2.n))) and abs(float(np.sum(st2.n)) - n) <= 1e-9 * n):
+            return bad("WideMachine", "%d features, units x%g: responsibilities %s do not sum to %d" % (D * T, a, np.asarray(st2.n).tolist(), n))
     ck.sample({"mechanism": "M2", "scenario": scn, "log_likelihood": ll.tolist(), "verdict": "ok"})
 
 
